@@ -19,7 +19,7 @@ RULE = ("values: boundary-biased (address, prefix) pairs (0, max, all-ones octet
         "copy construction); the integers the object reports (address, network, prefix length, netmask, hostmask, last, numhosts) are compared with the "
         "reference model by vm_compute, and in the same run with ipaddress (three-way) together with the string renderings. "
         "aux: near-valid text = every string at one edit (delete/insert/substitute/duplicate-group) from valid spellings: accept/reject and value must match ipaddress. "
-        "non-trivial (values) = host bits non-zero or prefix in {0,W-1,W}; distinct by (family, form, prefix, address class).")
+        "non-trivial (values) = host bits non-zero or prefix in {0,W-1,W}; distinct by (family, form, prefix, address class). stream render4: for every prefix length and boundary/random addresses the strings str(ip), as_cidr_addr, as_cidr_net, str(netmask), str(hostmask), str(broadcast) of the IPv4 object are compared inside Coq with the renderer of Model/IPText.v (the one v4_parse_render is about).")
 EXHAUSTIVE = {"quick": False, "thorough": False}
 TRUSTED = [
     "Coq 8.16.1 kernel incl. vm_compute (no native_compute)",
@@ -32,7 +32,7 @@ TECHNIQUE = "Coq proof of the numeric identities over Z (network = addr AND netm
 LEVEL_TEXT = ("Numeric layer proved for all (address, prefix) pairs of both families: network = addr land netmask, netmask + hostmask = 2^W-1, last = network + hostmask, "
               "bounds, numhosts, host bits kept; the derived-value methods are re-translated from /repo on every run (gen/GenOK11.v). The object -> (addr, plen) reading of every "
               "accepted textual form, and rejection of near-valid text, is tied three-way (model, implementation, ipaddress) on boundary-biased inputs and the one-edit neighbourhood. "
-              "IPv4 text: every spelling a | a/len | a/mask | a<blanks>mask | a<blanks>hostmask with surrounding blanks parses to (a, p) (v4_parse_render, all a < 2^32, p <= 32) and accepted text is always in range (v4_parse_sound). "
+              "IPv4 text: every spelling a | a/len | a/mask | a<blanks>mask | a<blanks>hostmask with surrounding blanks parses to (a, p) (v4_parse_render, all a < 2^32, p <= 32) and accepted text is always in range (v4_parse_sound); the object's IPv4 string renderings equal that renderer on every case of the render4 stream, so they re-parse to the same (address, length). "
               "IPv6 text: v6_parse (coq/Model/IPText6.v, a transcription of ipaddress's IPv6 parser and IPv6Obj's input handling, tied by the v6text stream) only accepts in-range values (v6_parse_sound), and every spelling "
               "ipaddress accepts denotes the expected value, for every group value, every hextet spelling (minimal lower/upper case, zero padded -- spellings, an exhaustive kernel computation over all 65536 groups), "
               "with or without /len and surrounding blanks: eight groups (v6_parse_full), hi::lo with either side possibly empty (v6_parse_compressed), six groups + dotted quad (v6_parse_embedded_full), "
@@ -265,6 +265,33 @@ def run_v6text(c):
 
 
 PRE = "From Coq Require Import ZArith List NArith. Import ListNotations. Require Import CCP.Corr.C11. Open Scope Z_scope."
+# ------------------------------------------------------------------ IPv4 string renderings against the Coq renderer
+def gen_render4(rng, tier, escalate):
+    big = tier == "thorough" or escalate
+    cases = []
+    pool = sorted(_addr_pool(32, rng))
+    for p in range(33):
+        for a in (pool if big else rng.sample(pool, 8)):
+            cases.append({"a": a, "p": p})
+        for _ in range(12 if big else 3):
+            cases.append({"a": rng.getrandbits(32), "p": p})
+    return cases
+
+
+def run_render4(c):
+    from ciscoconfparse2.ccp_util import IPv4Obj
+    try:
+        o = IPv4Obj(c["a"])
+        o.prefixlen = c["p"]
+        return [str(o.ip), str(o.as_cidr_addr), str(o.as_cidr_net), str(o.netmask), str(o.hostmask), str(o.broadcast)]
+    except BaseException as e:
+        return ["raised " + type(e).__name__]
+
+
+def lit_render4(c, o):
+    return "(%s, %d, %s)" % (common.zlit(c["a"]), c["p"], common.listlit([common.strlit(x) for x in o]))
+
+
 STREAMS = [Stream("v4text", gen_v4text, run_v4text, lit_v4text, PRE, "list N * option (Z * Z)", "agree11t", show="model11t", nontrivial=nt_v4text,
                   describe=lambda c, o: {"text": c["s"], "impl (addr, plen)": o}),
            Stream("v6text", gen_v6text, run_v6text, lit_v4text, PRE, "list N * option (Z * Z)", "agree11t6", show="model11t6",
@@ -272,7 +299,12 @@ STREAMS = [Stream("v4text", gen_v4text, run_v4text, lit_v4text, PRE, "list N * o
                   describe=lambda c, o: {"text": c["s"], "impl (addr, plen)": o}),
            Stream("values", gen_values, run_values, lit_values,
                   "From Coq Require Import ZArith List. Import ListNotations. Require Import CCP.Corr.C11. Open Scope Z_scope.",
-                  "Z * Z * Z * list Z", "agree11", show="model11", nontrivial=nt_values, describe=describe)]
+                  "Z * Z * Z * list Z", "agree11", show="model11", nontrivial=nt_values, describe=describe),
+           Stream("render4", gen_render4, run_render4, lit_render4,
+                  "From Coq Require Import ZArith List NArith. Import ListNotations. Require Import CCP.Corr.C11. Open Scope Z_scope.",
+                  "Z * Z * list (list N)", "agree11r", show="model11r",
+                  nontrivial=lambda c, o: (c["p"], c["a"] >> 24 in (0, 255), c["a"] & 255 in (0, 255)) if c["p"] in (0, 1, 8, 24, 30, 31, 32) or (c["a"] & 255) in (0, 255) else None,
+                  describe=lambda c, o: {"address": c["a"], "prefixlen": c["p"], "impl [ip, as_cidr_addr, as_cidr_net, netmask, hostmask, broadcast]": o})]
 
 
 # ------------------------------------------------------------------ textual layer: three-way differential test
